@@ -164,6 +164,17 @@ class Ctx:
             self.discharged += nqed
         self.coverage["property_theorems"] = thms
         self.coverage["cone_files"] = files
+        # thorough tier: the independent checker over the compiled cone, and the axioms it finds
+        if built and self.tier == "thorough":
+            mod = "LB." + prop_rel[:-2].replace("/", ".")
+            cmd3 = ["timeout", "3000", "coqchk", "-silent", "-o", "-Q", "theories", "LB", mod]
+            self.checker_cmds.append("cd coq && coqchk -silent -o -Q theories LB " + mod)
+            p3 = subprocess.run(cmd3, cwd=COQ, stdout=subprocess.PIPE, stderr=subprocess.STDOUT, text=True)
+            ax = re.search(r"\* Axioms:\s*(.*?)\n\s*\* Constants", p3.stdout, re.S)
+            axioms_found = ax.group(1).strip() if ax else "?"
+            self.assumptions.append("coqchk %s: rc=%d, axioms: %s" % (mod, p3.returncode, axioms_found))
+            if p3.returncode != 0 or axioms_found != "<none>":
+                self.proof_problems.append("coqchk %s: rc=%d\n%s" % (mod, p3.returncode, p3.stdout[-1500:]))
         return built
 
     def coq_eval(self, name, text, timeout=1500):
